@@ -186,23 +186,37 @@ Qed.
 Definition resolves (fc : fctx) (L : Z) (ce : cenv) (stk gl : list nat) (y : ident) (a : nat) : Prop :=
   match clookup y ce with
   | Some i => i <= L /\ nth_error stk (Z.to_nat (L - i)) = Some a
-  | None => nth_error gl (Z.to_nat (gpos y (fc_fvs fc) 0)) = Some a
+  | None => self_is (fc_self fc) y = false /\ nth_error gl (Z.to_nat (gpos y (fc_fvs fc) 0)) = Some a
   end.
+(* (not the running nested function's own name: the repaired emitter captures that one by COPYGLOB;
+   ID_FUNC_ADDR — a new function object, Compile4.capture — which these lemmas do not cover) *)
 
 Lemma gpos_nonneg : forall y l i, 0 <= i -> 0 <= gpos y l i.
 Proof. intros y l. induction l as [|z t IH]; intros i Hi; simpl; [lia|]. destruct (N.eqb y z); [lia|]. apply IH. lia. Qed.
 
-Lemma capture_run : forall fc ce stk gl h o fr L l addrs,
+Lemma capture_run : forall FT fc ce stk gl h o fr L l addrs,
   gl = [] \/ nth_error h (r_gp fr) = Some (HVec gl) ->
   Forall2 (resolves fc L ce stk gl) l addrs ->
   forall pushed pc,
-  code_at prog pc (capture fc (L + Z.of_nat (length pushed)) ce l) ->
+  code_at prog pc (capture FT fc (L + Z.of_nat (length pushed)) ce l) ->
   star (mkst pc (pushed ++ stk) h o fr)
        (mkst (pc + length l) (rev addrs ++ pushed ++ stk) h o fr).
 Proof.
-  intros fc ce stk gl h o fr L l addrs Hgp HF. induction HF as [|y a l addrs Hy HF IH]; intros pushed pc Hc.
+  intros FT fc ce stk gl h o fr L l addrs Hgp HF. induction HF as [|y a l addrs Hy HF IH]; intros pushed pc Hc.
   - simpl. rewrite Nat.add_0_r. apply star_refl.
-  - cbn [capture] in Hc. apply code_at_cons in Hc. destruct Hc as [Hi Hc].
+  - cbn [capture] in Hc.
+    assert (Ecap : (match clookup y ce with
+                    | Some i => [ins BYTECODE_ID_LOCAL (L + Z.of_nat (length pushed)) i]
+                    | None => if self_is (fc_self fc) y
+                              then [ins0 BYTECODE_COPYGLOB; ins BYTECODE_ID_FUNC_ADDR (fidx FT y) 0]
+                              else [ins BYTECODE_ID_GLOBAL (gpos y (fc_fvs fc) 0) 0]
+                    end) = [match clookup y ce with
+                            | Some i => ins BYTECODE_ID_LOCAL (L + Z.of_nat (length pushed)) i
+                            | None => ins BYTECODE_ID_GLOBAL (gpos y (fc_fvs fc) 0) 0
+                            end]).
+    { unfold resolves in Hy. destruct (clookup y ce); [reflexivity|]. rewrite (proj1 Hy). reflexivity. }
+    rewrite Ecap in Hc. clear Ecap. cbn [app] in Hc.
+    apply code_at_cons in Hc. destruct Hc as [Hi Hc].
     assert (Hstep : ValueVM4.step X prog (mkst pc (pushed ++ stk) h o fr) =
                     SNext (mkst (S pc) (a :: pushed ++ stk) h o fr)).
     { unfold resolves in Hy. destruct (clookup y ce) as [i|].
@@ -210,7 +224,7 @@ Proof.
         replace (Z.to_nat (L + Z.of_nat (length pushed) - i)) with (length pushed + Z.to_nat (L - i))%nat by lia.
         rewrite nth_error_app2 by lia. replace (length pushed + Z.to_nat (L - i) - length pushed)%nat
           with (Z.to_nat (L - i)) by lia. exact Hn.
-      - assert (Hg := gpos_nonneg y (fc_fvs fc) 0 ltac:(lia)).
+      - destruct Hy as [_ Hy]. assert (Hg := gpos_nonneg y (fc_fvs fc) 0 ltac:(lia)).
         destruct Hgp as [-> | Hgp]; [destruct (Z.to_nat _); discriminate Hy|].
         eapply step_id_global with (i := Z.to_nat (gpos y (fc_fvs fc) 0)); [| exact Hgp | exact Hy].
         rewrite Z2Nat.id by lia. exact Hi. }
@@ -222,8 +236,13 @@ Proof.
     simpl rev. rewrite <- app_assoc. exact IH.
 Qed.
 
-Lemma capture_length : forall fc ce l L, length (capture fc L ce l) = length l.
-Proof. intros fc ce l. induction l as [|y t IH]; intros L; simpl; [reflexivity|]. rewrite IH. reflexivity. Qed.
+Lemma capture_length : forall FT fc ce stk gl L0 l addrs, Forall2 (resolves fc L0 ce stk gl) l addrs ->
+  forall L, length (capture FT fc L ce l) = length l.
+Proof.
+  intros FT fc ce stk gl L0 l addrs HF. induction HF as [|y a l addrs Hy HF IH]; intros L; [reflexivity|].
+  cbn [capture]. rewrite app_length, IH. unfold resolves in Hy.
+  destruct (clookup y ce); [reflexivity|]. rewrite (proj1 Hy). reflexivity.
+Qed.
 
 (* func_emit_native: one new vector holding the captured ADDRESSES, one new function object *)
 Lemma closure_run : forall FT TL fc ce stk gl h o fr L g addrs pc k,
@@ -237,17 +256,17 @@ Lemma closure_run : forall FT TL fc ce stk gl h o fr L g addrs pc k,
 Proof.
   intros FT TL fc ce stk gl h o fr L g addrs pc k Hgp HF Hk Hc.
   assert (Elen : length (closure_code FT TL fc L ce g) = (4 + length (fvs_fd TL g))%nat).
-  { unfold closure_code. simpl length. rewrite app_length, capture_length. simpl. lia. }
+  { unfold closure_code. simpl length. rewrite app_length, (capture_length _ _ _ _ _ _ _ _ HF). simpl. lia. }
   rewrite Elen. clear Elen.
   unfold closure_code in *. set (fv := fvs_fd TL g) in *.
   apply code_at_cons in Hc. destruct Hc as [H0 Hc]. apply code_at_cons in Hc. destruct Hc as [H1 Hc].
   assert (Hc1 := code_at_app_l _ _ _ _ Hc). assert (Hc2 := code_at_app_r _ _ _ _ Hc).
-  rewrite capture_length in Hc2.
+  rewrite (capture_length _ _ _ _ _ _ _ _ HF) in Hc2.
   apply code_at_cons in Hc2. destruct Hc2 as [H2 Hc2]. apply code_at_head in Hc2.
   eapply star_step; [eapply step_nop; [exact H0 | tauto]|].
   eapply star_step; [eapply step_nop; [exact H1 | tauto]|].
   eapply star_trans.
-  { apply (capture_run fc ce stk gl h o fr L fv addrs Hgp HF [] (S (S pc))). simpl. rewrite Z.add_0_r. exact Hc1. }
+  { apply (capture_run FT fc ce stk gl h o fr L fv addrs Hgp HF [] (S (S pc))). simpl. rewrite Z.add_0_r. exact Hc1. }
   simpl app.
   assert (Hlen : length addrs = length fv).
   { clear -HF. induction HF; simpl; congruence. }
